@@ -1167,6 +1167,13 @@ class Tensor:
                     or (op_out is parent_data)
                 ):
                     if parent_var._base is not None and parent_var._creator is None:
+                        # The view is being disconnected from its base. It must keep
+                        # reporting the gradient that it reports now (a view of its
+                        # base's gradient, or None once that was discarded), not the
+                        # contribution that once flowed through the view itself.
+                        _grad = parent_var.grad
+                        parent_var._grad = None if _grad is None else np.copy(_grad)
+                        parent_var._view_grad = None
                         parent_var._base = None
 
                     base = parent_var if parent_var.base is None else parent_var.base
